@@ -55,6 +55,9 @@ PROPS["C11"] = {
          "quick": {"checks": 400, "shards": 8, "timeout": 240},
          "thorough": {"checks": 6000, "shards": 16, "timeout": 1500}},
         {"pkg": "pkg/trie", "run": "^TestC11Regression$", "all": {"shards": 1, "timeout": 60}},
+        {"pkg": "state/statedb", "run": "^TestC11StateProofs$",
+         "quick": {"checks": 500, "shards": 6, "timeout": 240},
+         "thorough": {"checks": 8000, "shards": 12, "timeout": 1500}},
     ],
 }
 
